@@ -159,7 +159,7 @@ def shard_country(arg):
         rec.exhaustive.append("every whitespace character of W inserted at every position of a valid IBAN per country")
         if bi < 2:
             from .. import dims
-            for label, v in dims.whitespace_extremes(base):
+            for label, v in dims.whitespace_extremes(base, huge=(cc in ("DE", "GB", "LC", "RU") if "cc" in dir() else False)):
                 check_pair(rec, "iban", base, v, f"ws-extreme:{label}")
                 rec.case("iban-ws-extreme", (base, label))
             # texts carrying a domain token (label) are judged like any other text: all whitespace/case variants alike
